@@ -360,6 +360,9 @@ EVAL = {'speriodogram': eval_speriodogram, 'Periodogram': eval_class, 'CORRELOGR
 
 
 def replay(rep):
+    if rep.get('replay', {}).get('form') == 'routes':
+        from props import _estimators as E_
+        return E_.replay_routes(rep['replay'])
     if rep['replay'].get('protocol') == 'values_only':
         from props import _purity
         return _purity.replay_protocol(rep['replay'])
@@ -769,6 +772,9 @@ def run(ctx):
     import spectrum
     from props import _c01_pipeline
     ctx.check_theorems('Properties/C01.v')
+    # the estimate an object holds does not depend on the history that gave it its data and settings (every route of _estimators.via)
+    from props import _estimators as E_
+    E_.class_route_stream(ctx, ['Periodogram'], 'routes')
     # translator tie: the pipeline record of Periodogram.__call__ / the psd property is re-extracted from the snapshot
     try:
         vtext = _c01_pipeline.generated_v(os.path.dirname(os.path.abspath(spectrum.__file__)))
